@@ -195,6 +195,19 @@ DEBUG_HOSTS = ["localhost", "sub.localhost", "a.b.localhost", "127.0.0.1", "loca
                "xn--bcher-kva.localhost", "localhost.", "a..localhost", "a" * 64 + ".localhost", ".localhost",
                "localhost:abc", "", None, "xlocalhost", "localhost.localhost.evil"]
 TRUSTED_REP, UNTRUSTED_REP = "localhost", "evil.com"
+# no Host header at all, on servers bound to trusted / untrusted addresses: untrusted for the debugger
+ABSENT_HOSTS = [{"srv": s, "port": p} for s in ("localhost", "127.0.0.1", "a.localhost", "example.com", "::1")
+                for p in ("80", "5000", "443")]
+# every gated command with everything else in order
+GATED = [
+    {"cmd": "eval", "secret": "right", "cookie": "valid", "frame": "known", "pin": "right"},
+    {"cmd": "eval", "secret": "right", "cookie": "valid", "frame": "console", "pin": "right"},
+    {"cmd": "console", "secret": "absent", "cookie": "absent", "frame": "unknown", "pin": "wrong"},
+    {"cmd": "pinauth", "secret": "right", "cookie": "valid", "frame": "unknown", "pin": "right"},
+    {"cmd": "pinauth", "secret": "right", "cookie": "absent", "frame": "unknown", "pin": "right"},
+    {"cmd": "printpin", "secret": "right", "cookie": "absent", "frame": "unknown", "pin": "wrong"},
+    {"cmd": "resource", "secret": "right", "cookie": "valid", "frame": "known", "pin": "right"},
+]
 
 
 class _FakeTime:
@@ -287,9 +300,14 @@ class Rig:
         v = ["garbage", f"abc|{good}", f"|{good}", good, f"{now}", f"1.5|{good}"][var % 6]
         return f"{self.cookie_name}={v}"
 
-    def request(self, q: dict, host: str | None, var: int = 0) -> dict:
-        """q = {cmd, secret, cookie, frame, pin}; returns the trace line (without t/i, has_exp false)."""
+    def request(self, q: dict, host, var: int = 0) -> dict:
+        """q = {cmd, secret, cookie, frame, pin}; host = the Host header text, None = no HTTP_HOST key at all, or
+        {"srv": SERVER_NAME, "port": SERVER_PORT} = no HTTP_HOST key on a server bound to that address (the environ
+        is built by hand).  Returns the trace line (without t/i, has_exp false)."""
         app = self.app
+        srv, sport = "srv.example", "80"
+        if isinstance(host, dict):
+            srv, sport, host = host["srv"], host["port"], None
         args = []
         path = "/"
         cmd = q["cmd"]
@@ -320,13 +338,14 @@ class Rig:
         qs = "&".join(f"{k}={quote(v, safe='')}" for k, v in args)
         environ = {
             "REQUEST_METHOD": "GET", "SCRIPT_NAME": "", "PATH_INFO": path, "QUERY_STRING": qs,
-            "SERVER_NAME": "srv.example", "SERVER_PORT": "80", "SERVER_PROTOCOL": "HTTP/1.1",
+            "SERVER_NAME": srv, "SERVER_PORT": sport, "SERVER_PROTOCOL": "HTTP/1.1",
             "wsgi.version": (1, 0), "wsgi.url_scheme": "http", "wsgi.input": __import__("io").BytesIO(b""),
             "wsgi.errors": __import__("io").StringIO(), "wsgi.multithread": False, "wsgi.multiprocess": False,
             "wsgi.run_once": False,
         }
         if host is not None:
             environ["HTTP_HOST"] = host
+        assert host is not None or "HTTP_HOST" not in environ
         ck = self._cookie(q["cookie"], var)
         if ck is not None:
             environ["HTTP_COOKIE"] = ck
